@@ -216,6 +216,56 @@ func Run(ctx *common.Ctx) int {
 			cmpPair(&ps[i], data, func() interface{} { return map[string]interface{}{"filler_bytes": L, "seed": ctx.Seed + int64(L)} })
 		}
 	}
+	// beyond 125000 bytes: lengths just above 2^20 that are not multiples of 2..32 (a chunked or parallel
+	// conversion that mishandles the remainder shows only there), cheap pairs only
+	bigLens := []int{1<<20 + 3, 1<<20 + 4099}
+	if !quick {
+		bigLens = append(bigLens, 3000007, 12500003)
+	}
+	for _, L := range bigLens {
+		data := enum.FillerBytes(L, uint64(ctx.Seed)+uint64(L))
+		for k := 1; k <= 40; k++ {
+			data[L-k] |= 0x81 // non-zero tail
+		}
+		want := refmodel.Bits(data)
+		if got := r.B2bitArr(data); common.BitString(got[len(got)-512:]) != common.BitString(want[len(want)-512:]) || len(got) != len(want) {
+			ctx.Report("B2bitArr/large", fmt.Sprintf("B2bitArr of %d bytes is not the MSB-first expansion (tail differs)", L), map[string]interface{}{"bytes": L})
+		} else {
+			for i := range got {
+				if got[i] != want[i] {
+					ctx.Report("B2bitArr/large", fmt.Sprintf("B2bitArr of %d bytes differs from the MSB-first expansion at bit %d", L, i), map[string]interface{}{"bytes": L})
+					break
+				}
+			}
+		}
+		for i := range ps {
+			n := ps[i].name
+			if strings.HasPrefix(n, "MonoBit") || strings.HasPrefix(n, "RunsTestBytes") || strings.HasPrefix(n, "PokerTestBytes(m=8)") || strings.HasPrefix(n, "PokerTestBytes(m=4)") ||
+				strings.HasPrefix(n, "AutocorrelationTestBytes(d=16)") || strings.HasPrefix(n, "CumulativeTestBytes(forward=true)") || strings.HasPrefix(n, "BinaryDerivativeTestBytes(k=7)") ||
+				strings.HasPrefix(n, "FrequencyWithinBlockTestBytes(m=100)") || strings.HasPrefix(n, "LongestRun") {
+				cmpPair(&ps[i], data, func() interface{} { return map[string]interface{}{"filler_bytes": L, "seed": ctx.Seed + int64(L)} })
+			}
+		}
+	}
+	// 125000-byte inputs with planted long runs (the 10000-bit regime of the longest-run test)
+	for _, L := range []int{255, 256, 260, 272, 512, 520, 1030, 4096, 9999, 10000} {
+		data := enum.FillerBytes(125000, uint64(ctx.Seed)+uint64(L)+31)
+		for _, start := range []int{1, 30000, 124990 - L/8} {
+			for j := 0; j <= L/8; j++ {
+				v := byte(0xFF)
+				if (start/7)%2 == 1 {
+					v = 0x00
+				}
+				data[start+j] = v
+			}
+			data[start+L/8+1] = 0x55
+		}
+		for i := range ps {
+			if strings.HasPrefix(ps[i].name, "LongestRun") || strings.HasPrefix(ps[i].name, "RunsDistribution") || strings.HasPrefix(ps[i].name, "RunsTestBytes") {
+				cmpPair(&ps[i], data, func() interface{} { return map[string]interface{}{"bytes": 125000, "planted_run_bits": L} })
+			}
+		}
+	}
 	samples = append(samples, map[string]interface{}{"family": "bytes vs bits, long inputs", "inputs": fmt.Sprintf("%d byte patterns repeated to %v bytes with one deviation; fillers of 1..125000 bytes", npat, patLens)})
 	// (2) registry runners vs entry points with the standard's defaults (bit-identical, Pass consistent)
 	dfs := defaults()
